@@ -325,7 +325,18 @@ func c01Stateful(r *Run, c c01Config) {
 		}
 		name := Keys[extra].Spell(sp)
 		do(Act("enableAttester("+attName(name)+") by A1", &cctptypes.MsgEnableAttester{From: AttMgr.Str, Attester: name}))
-		do(Act("disableAttester("+attName(name)+") by A1", &cctptypes.MsgDisableAttester{From: AttMgr.Str, Attester: name}))
+		// first under ANOTHER spelling of the same key: on this tree that names a different (absent)
+		// registry entry and is refused; an implementation that accepts it has disabled the key
+		altSp := 1
+		if sp == 1 {
+			altSp = 0
+		}
+		alt := Act("disableAttester("+attName(Keys[extra].Spell(altSp))+") by A1", &cctptypes.MsgDisableAttester{From: AttMgr.Str, Attester: Keys[extra].Spell(altSp)})
+		if o := w.Apply(alt); o.OK {
+			pre = append(pre, alt)
+		} else {
+			do(Act("disableAttester("+attName(name)+") by A1", &cctptypes.MsgDisableAttester{From: AttMgr.Str, Attester: name}))
+		}
 	}
 	if !reachable {
 		return
